@@ -187,11 +187,16 @@ func c12Judge(r *core.Run, s *openapi3.Schema, v any, order int) (out []c12Findi
 		}
 	}
 	// the request and response readings: within each, the modes must agree with that reading's default mode
+	type opts = []openapi3.SchemaValidationOption
 	for _, rd := range []struct {
 		name string
-		opt  openapi3.SchemaValidationOption
-	}{{"asRequest", openapi3.VisitAsRequest()}, {"asResponse", openapi3.VisitAsResponse()}} {
-		rbase, rerr, p := run(rd.name, func() (bool, error) { e := s.VisitJSON(cloneJSON(v), rd.opt); return e == nil, e })
+		opt  opts
+	}{{"asRequest", opts{openapi3.VisitAsRequest()}}, {"asResponse", opts{openapi3.VisitAsResponse()}},
+		// further readings (options that change what is checked): within each the report modes must agree as well
+		{"formats", opts{openapi3.EnableFormatValidation()}}, {"noPatterns", opts{openapi3.DisablePatternValidation()}},
+		{"asRequest-noReadOnly", opts{openapi3.VisitAsRequest(), openapi3.DisableReadOnlyValidation()}},
+		{"asResponse-noWriteOnly", opts{openapi3.VisitAsResponse(), openapi3.DisableWriteOnlyValidation()}}} {
+		rbase, rerr, p := run(rd.name, func() (bool, error) { e := s.VisitJSON(cloneJSON(v), rd.opt...); return e == nil, e })
 		if p {
 			continue
 		}
@@ -203,7 +208,7 @@ func c12Judge(r *core.Run, s *openapi3.Schema, v any, order int) (out []c12Findi
 				}
 				name := fmt.Sprintf("%s,ff=%v,multi=%v", rd.name, ff, me)
 				ok, err, p := run(name, func() (bool, error) {
-					e := s.VisitJSON(cloneJSON(v), append(c12Opts(ff, me, 0), rd.opt)...)
+					e := s.VisitJSON(cloneJSON(v), append(c12Opts(ff, me, 0), rd.opt...)...)
 					return e == nil, e
 				})
 				if p {
@@ -295,7 +300,7 @@ func init() {
 		ID: "C12",
 		Rule: "family 0: every schema with <=B keyword instances of the C01 alphabet extended with format (date, date-time, byte, int32, unknown) and an uncompilable pattern, x the C01 value list plus format probes; " +
 			"family 1: six discriminator schemas (oneOf of two component refs, with and without mapping, bare and nested under properties/items/allOf) x 48 values. Each (schema,value) is run in default mode, " +
-			"the 11 combinations of FailFast/MultiErrors/message customiser, IsMatching and the typed IsMatching helper; non-trivial = the default verdict is reject (an error exists whose pointer and value are checked) or >=1 keyword",
+			"the 11 combinations of FailFast/MultiErrors/message customiser, IsMatching and the typed IsMatching helper, and within each of six further readings (request, response, formats enabled, patterns disabled, request without the readOnly check, response without the writeOnly check) the FailFast/MultiErrors combinations against that reading's own default; non-trivial = the default verdict is reject (an error exists whose pointer and value are checked) or >=1 keyword",
 		Assumptions: []string{
 			"no reference evaluator: the default-mode verdict is the yardstick for the other modes",
 			"pointer/value clause is asserted for the returned *SchemaError and members of returned MultiErrors only (errors nested as Origin are not asserted, as the property says)",
@@ -303,7 +308,7 @@ func init() {
 		},
 		Bounds: func(tier string) map[string]any {
 			b, d, vs := c12Budget(tier)
-			return map[string]any{"keyword_instances": b, "nesting_depth": d, "values": len(c12Values(vs)), "discriminator_schemas": len(c12DiscNames), "discriminator_values": len(c12DiscValues()), "modes": 22}
+			return map[string]any{"keyword_instances": b, "nesting_depth": d, "values": len(c12Values(vs)), "discriminator_schemas": len(c12DiscNames), "discriminator_values": len(c12DiscValues()), "modes": 34}
 		},
 		MinOutcomes: 2,
 		DevBound:    func(string) int { return 1 },
